@@ -228,7 +228,7 @@ func (mv mapValue) PropertyValue(iv Value) Value {
 func (sv stringValue) Contains(substr Value) bool {
 	s, ok := substr.Interface().(string)
 	if !ok {
-		s = fmt.Sprint(substr.Interface())
+		s = fmt.Sprint(ResolveDrops(substr.Interface()))
 	}
 	return strings.Contains(sv.str(), s)
 }
